@@ -110,7 +110,7 @@ BE_INST = ["numpy@1", "jax@1"]
 BE_BAD = ["bogus", "tensorflow", "core", "einsum"]
 TA_VALID = ["core", "einsum"]
 TA_BAD = ["bogus", "numpy", "jax"]
-EXC_KINDS = ["Exception", "BaseException", "KeyboardInterrupt", "StopIteration", "GeneratorExit"]
+EXC_KINDS = ["Exception", "BaseException", "KeyboardInterrupt", "StopIteration", "GeneratorExit", "SystemExit", "Falsy", "Chained"]
 
 
 # dispatched functions used as probes: index 0 is used half of the time (so that per-function faults such
@@ -151,8 +151,28 @@ class SimBaseExc(BaseException):
     pass
 
 
+class SimFalsyExc(Exception):
+    """An exception object that is falsy (`if exc:` style tests in an exit path misfire)."""
+
+    def __bool__(self):
+        return False
+
+    def __len__(self):
+        return 0
+
+
 def make_exc(kind):
+    if kind == "Chained":  # raised while another exception is being handled: carries a __context__
+        try:
+            raise SimExc("first")
+        except SimExc:
+            try:
+                raise SimExc("sim")
+            except SimExc as second:
+                return second
     e = {
+        "SystemExit": SystemExit,
+        "Falsy": SimFalsyExc,
         "Exception": SimExc,
         "BaseException": SimBaseExc,
         "KeyboardInterrupt": KeyboardInterrupt,
